@@ -83,6 +83,16 @@ PURE = {
     "std::ptr::slice_from_raw_parts": "slice_from_raw_parts",
     "std::clone::Clone::clone": "clone",
     "std::iter::ExactSizeIterator::len": "len",
+    "std::ops::Try::branch": "Try::branch",
+    "std::ops::FromResidual::from_residual": "Try::from_residual",
+    "std::cmp::Ordering::is_lt": "ord_is:lt",
+    "std::cmp::Ordering::is_le": "ord_is:le",
+    "std::cmp::Ordering::is_gt": "ord_is:gt",
+    "std::cmp::Ordering::is_ge": "ord_is:ge",
+    "std::cmp::Ordering::is_eq": "ord_is:eq",
+    "std::cmp::Ordering::is_ne": "ord_is:ne",
+    "std::bool::then": "bool::then",
+    "std::bool::then_some": "bool::then_some",
 }
 
 ATOMIC_OPS = ("fetch_add", "fetch_sub", "load", "store", "swap", "compare_exchange", "compare_exchange_weak",
@@ -187,6 +197,9 @@ def mk_field(t, idx, name, adt=None):
             return inner[2][idx]
         if t[2] == "Some" and idx == 0:
             return payload_shallow(inner)
+        # `x?` on an Option: Try::branch(x) is Continue(payload of x) | Break(None)
+        if t[2] == "Continue" and idx == 0 and inner[0] == "call" and inner[1] == "Try::branch":
+            return payload_shallow(inner[2][0])
     return ("field", t, idx, name, adt)
 
 
@@ -279,6 +292,8 @@ def fmt(t, depth=0):
         return "payload(%s)" % f(t[1])
     if k == "phi":
         return "phi(%s)" % " | ".join(f(x) for x in t[1])
+    if k == "clarg":
+        return "closure-arg%d" % t[2]
     if k == "cyclic":
         return "cyclic(%s)" % t[1]
     if k == "unknown":
@@ -288,9 +303,11 @@ def fmt(t, depth=0):
 
 class Ctx:
     """Evaluation context: one activation of a body."""
-    __slots__ = ("body", "params", "self_adt", "bindings", "depth", "site", "memo", "stack")
+    __slots__ = ("body", "params", "self_adt", "bindings", "depth", "site", "memo", "stack", "parent", "entry_facts")
 
-    def __init__(self, body, params=None, self_adt=None, bindings=None, depth=0, site=(), stack=()):
+    def __init__(self, body, params=None, self_adt=None, bindings=None, depth=0, site=(), stack=(), parent=None):
+        self.parent = parent  # (caller ctx, block of the call) for inlined activations
+        self.entry_facts = ()  # facts that hold whenever this activation runs (closure run by `bool::then`, ...)
         self.body = body
         self.params = params
         self.self_adt = self_adt
@@ -316,10 +333,10 @@ class Evaluator:
 
     def _record_payload_facts(self, ctx, bb, x):
         """facts that hold whenever `Some(x)` is built in block bb (used for payloads of local callees)"""
-        from guards import block_facts
+        from guards import full_block_facts
         if x[0] in ("int", "const"):
             return
-        for f in block_facts(self, ctx, bb):
+        for f in full_block_facts(self, ctx, bb):
             if f[0] == "flag":
                 lst = self.payload_flags.setdefault(x, [])
                 if f not in lst:
@@ -333,6 +350,7 @@ class Evaluator:
         """for a local with several definitions: the guard facts of each defining block, keyed by the option term"""
         from guards import block_facts
         body = ctx.body
+        per_value = {}
         for (bb, si, kind, payload) in body.defs().get(l, []):
             if body.blocks[bb]["cleanup"] or kind not in ("assign", "call"):
                 continue
@@ -340,6 +358,10 @@ class Evaluator:
             if v[0] in ("int", "const", "param", "cparam"):
                 continue
             fs = [f for f in block_facts(self, ctx, bb) if len(f) == 3 and f[0] in ("lt", "le", "eq", "ne")]
+            per_value.setdefault(v, []).append(fs)
+        for v, sets in per_value.items():
+            # the same value assigned at several places: only what holds at all of them
+            fs = [f for f in sets[0] if all(f in s for s in sets[1:])]
             if fs:
                 lst = self.option_facts.setdefault((phi, v), [])
                 for f in fs:
@@ -406,6 +428,15 @@ class Evaluator:
             if k == "deref":
                 t = mk_deref(t)
             elif k == "field":
+                if t[0] == "variant" and e["i"] == 0 and t[2] in ("Some", "Continue") and not (
+                        t[1][0] == "agg" and t[1][1].endswith("::" + t[2])):
+                    # payload of an Option (`match`/`if let`/`?`): look through the modelled combinators
+                    inner = t[1]
+                    if t[2] == "Continue":
+                        inner = inner[2][0] if (inner[0] == "call" and inner[1] == "Try::branch") else None
+                    if inner is not None:
+                        t = self.payload(ctx, inner)
+                        continue
                 t = mk_field(t, e["i"], e.get("name"), norm_std(e["adt"]) if "adt" in e else None)
             elif k == "downcast":
                 t = ("variant", t, e.get("name", e["v"]))
@@ -504,7 +535,7 @@ class Evaluator:
                 new_self = self._callee_self(c, cb, ctx)
                 site = ctx.site + ((body.def_, bb),)
                 nctx = Ctx(cb, params=args, self_adt=new_self, bindings=ctx.bindings, depth=ctx.depth + 1,
-                           site=site, stack=ctx.stack + (d,))
+                           site=site, stack=ctx.stack + (d,), parent=(ctx, bb))
         ctx.memo[key] = nctx
         return nctx
 
@@ -537,6 +568,23 @@ class Evaluator:
             return payload_shallow(args[0])
         if model == "into" or model == "from":
             return ("call", "conv", args[:1])
+        if model == "Try::branch":
+            st = (c.self_ty or {}).get("s", "")
+            if adt_of(c.self_ty) != "std::option::Option":
+                return ("ret", c.key, args, ctx.site)
+            return ("call", model, args)
+        if model == "Try::from_residual":
+            if adt_of(c.self_ty) != "std::option::Option":
+                return ("ret", c.key, args, ctx.site)
+            a = c.self_ty.get("adt", "std::option::Option")
+            return ("agg", "std::option::Option::None", ())
+        if model.startswith("ord_is:") and args:
+            x = args[0]
+            while x[0] == "ref":
+                x = x[1]
+            if x[0] == "call" and x[1] == "cmp":
+                return ("call", model.split(":")[1], x[2])
+            return ("ret", c.key, args, ctx.site)
         return ("call", model, args)
 
     # ---- closures and payloads
@@ -572,6 +620,10 @@ class Evaluator:
                 return self.payload(ctx, self.closure_ret(ctx, t[2][1], [self.payload(ctx, t[2][0])]))
             if m in ("Option::cloned", "Option::copied"):
                 return ("call", "clone", (self.payload(ctx, t[2][0]),))
+            if m == "bool::then" and len(t[2]) == 2:
+                return self.closure_ret(ctx, t[2][1], [])
+            if m == "bool::then_some" and len(t[2]) == 2:
+                return t[2][1]
         return ("payload", t)
 
     def may_be_none(self, ctx, t):
